@@ -368,7 +368,7 @@ var bufSizes = []int{256, 257, 300, 1024}
 
 // TestRandomFragmentation: generated streams (and truncations) x generated fragmentations.
 func TestRandomFragmentation(t *testing.T) {
-	ev.Check(t, "random", ev.N(40000, 1000000), func(rt *rapid.T) {
+	ev.Check(t, "random", ev.N(40000, 8000000), func(rt *rapid.T) {
 		typ, wire, simple := genStream(rt)
 		sentinel := true
 		if rapid.IntRange(0, 3).Draw(rt, "truncate") == 0 && len(wire) > 1 {
@@ -383,7 +383,7 @@ func TestRandomFragmentation(t *testing.T) {
 
 // TestEverySplit: for generated streams, every two-way split position and every fixed chunk size.
 func TestEverySplit(t *testing.T) {
-	ev.Check(t, "every-split", ev.N(600, 12000), func(rt *rapid.T) {
+	ev.Check(t, "every-split", ev.N(600, 60000), func(rt *rapid.T) {
 		typ, wire, simple := genStream(rt)
 		if len(wire) > 700 {
 			wire = wire[:700]
